@@ -69,7 +69,10 @@ pub fn dead_code_elimination(function: &il::Function) -> Result<il::Function, Er
 
     let du = def_use(function)?;
 
-    // Get every assignment with no uses, that isn't in live
+    // Get every assignment with no uses, that isn't in live. Only `Assign` and
+    // `Load` are candidates: their sole effect is the scalar they write. An
+    // intrinsic may have effects beyond the scalars it declares (or declare
+    // none at all), and must never be removed.
     let kill = function
         .locations()
         .into_iter()
@@ -77,10 +80,10 @@ pub fn dead_code_elimination(function: &il::Function) -> Result<il::Function, Er
             location
                 .instruction()
                 .map(|instruction| {
-                    !instruction
-                        .scalars_written()
-                        .map(|scalars_written| scalars_written.is_empty())
-                        .unwrap_or(false)
+                    matches!(
+                        *instruction.operation(),
+                        il::Operation::Assign { .. } | il::Operation::Load { .. }
+                    )
                 })
                 .unwrap_or(false)
         })
